@@ -33,6 +33,51 @@ let inst_str (mn, ops) =
 
 let insts_str l = match l with [] -> "-" | _ -> String.concat ";" (List.map inst_str l)
 
+(* ---- parsing the implementation's instruction text into the model's syntax (for the run on the proven machine) *)
+let mnem_of_name = function
+  | "endbr32" -> Some Frame.Mendbr32 | "endbr64" -> Some Frame.Mendbr64 | "push" -> Some Frame.Mpush | "pop" -> Some Frame.Mpop
+  | "mov" -> Some Frame.Mmov | "and" -> Some Frame.Mand | "sub" -> Some Frame.Msub | "add" -> Some Frame.Madd | "lea" -> Some Frame.Mlea
+  | "movaps" -> Some Frame.Mmovaps | "movups" -> Some Frame.Mmovups | "vmovaps" -> Some Frame.Mvmovaps | "vmovups" -> Some Frame.Mvmovups
+  | "kmovq" -> Some Frame.Mkmovq | "movq" -> Some Frame.Mmovq | "emms" -> Some Frame.Memms | "vzeroupper" -> Some Frame.Mvzeroupper
+  | "ret" -> Some Frame.Mret | "bti" -> Some Frame.Mbti | "stp" -> Some Frame.Mstp | "str" -> Some Frame.Mstr | "ldp" -> Some Frame.Mldp
+  | "ldr" -> Some Frame.Mldr | _ -> None
+
+let parse_op (t : string) : Frame.operand option =
+  let n = String.length t in
+  if n = 0 then None
+  else if t.[0] = '#' then Some (Frame.OImm (cz_of_string (String.sub t 1 (n - 1))))
+  else if t.[0] = '[' then begin
+    let mode, body = if t.[n - 1] = '!' then 1, String.sub t 1 (n - 3) else if t.[n - 1] = '^' then 2, String.sub t 1 (n - 3) else 0, String.sub t 1 (n - 2) in
+    (* body = G<id><+|-><off> *)
+    let k = ref 1 in
+    while !k < String.length body && body.[!k] >= '0' && body.[!k] <= '9' do incr k done;
+    let id = String.sub body 1 (!k - 1) and off = String.sub body !k (String.length body - !k) in
+    let off = if off <> "" && off.[0] = '+' then String.sub off 1 (String.length off - 1) else off in
+    if body.[0] <> 'G' then None else Some (Frame.OMem (cz_of_string id, cz_of_string off, cz_of_int mode))
+  end else begin
+    let g = match t.[0] with 'G' -> 0 | 'V' -> 1 | 'K' -> 2 | 'M' -> 3 | _ -> -1 in
+    match String.index_opt t '.' with
+    | Some d when g >= 0 -> Some (Frame.OReg (cz_of_int g, cz_of_string (String.sub t 1 (d - 1)), cz_of_string (String.sub t (d + 1) (n - d - 1))))
+    | _ -> None
+  end
+
+let parse_inst (t : string) : Frame.instr option =
+  match String.index_opt t ' ' with
+  | None -> (match mnem_of_name t with Some m -> Some (m, []) | None -> None)
+  | Some i ->
+    let name = String.sub t 0 i and rest = String.sub t (i + 1) (String.length t - i - 1) in
+    let ops = List.map parse_op (String.split_on_char ',' rest) in
+    (match mnem_of_name name with
+     | Some m when List.for_all (fun o -> o <> None) ops -> Some (m, List.map (function Some o -> o | None -> assert false) ops)
+     | _ -> None)
+
+let parse_insts (t : string) : Frame.instr list option =
+  let t = String.trim t in
+  if t = "-" || t = "" then Some []
+  else
+    let l = List.map parse_inst (String.split_on_char ';' t) in
+    if List.for_all (fun o -> o <> None) l then Some (List.map (function Some o -> o | None -> assert false) l) else None
+
 let quad_str q = Printf.sprintf "%s %s %s %s" (s q.Frame.q0) (s q.Frame.q1) (s q.Frame.q2) (s q.Frame.q3)
 
 let () =
@@ -49,6 +94,8 @@ let () =
         (match Frame.cc_init arch (iz 1) (iz 2) with
          | None -> print_endline "F 2"
          | Some cc ->
+           (* optional 16th field = 1: frame produced by the Compiler (natural alignment overridden by the target's) *)
+           let cc = if Array.length a > 15 && ii 15 = 1 then Frame.compiler_cc arch (iz 1) cc else cc in
            let attrs = ii 4 in
            let bit k = attrs land k <> 0 in
            let fi = { Frame.fi_arch = arch; fi_cc = cc; fi_arg_stack_size = iz 14;
@@ -56,7 +103,9 @@ let () =
                       fi_mmx_cleanup = bit 32; fi_avx_cleanup = bit 64; fi_avx_auto_cleanup = bit 128;
                       fi_dirty = { Frame.q0 = iz 5; q1 = iz 6; q2 = iz 7; q3 = iz 8 };
                       fi_local_size = iz 9; fi_local_align = iz 10; fi_call_size = iz 11; fi_call_align = iz 12;
-                      fi_sa_reg = iz 13 } in
+                      fi_sa_reg = iz 13;
+                      (* optional 17th field = 1: tree variant with fixes/C07-a64-sa-register.patch (probed by the check) *)
+                      fi_sa_fix = (Array.length a > 16 && ii 16 = 1) } in
            let o = Frame.finalize fi in
            let b2 b = if b then "1" else "0" in
            let (pl, pok) = Frame.prolog fi o in
@@ -83,6 +132,47 @@ let () =
         let st = Frame.alloc_all slots in
         Printf.printf "S %s | %s %d %d\n" (String.concat " " (List.map s offs)) (s fin)
           (List.length st.Frame.as_gaps) (if st.Frame.as_gap_used then 1 else 0)
+      | "T" :: n :: stack :: rest when List.length rest = 7 * int_of_string n ->
+        (* T n implStackSize (origIdx size align regHome isArg useCount implOffset)*  in the implementation's processing order.
+           Answer: T <order_ok> <placed_ok of the IMPLEMENTATION's placement> <model offsets> | <model stack size> <gaps> <gap used> *)
+        let n = int_of_string n in
+        let rec mk = function
+          | ix :: sz :: al :: rh :: ia :: us :: off :: r ->
+            (int_of_string ix, { Frame.rs_size = cz_of_string sz; rs_align = cz_of_string al; rs_reghome = (rh <> "0"); rs_arg = (ia <> "0");
+                                 rs_use = cz_of_string us }, cz_of_string off) :: mk r
+          | _ -> [] in
+        let recs = mk rest in
+        (* original slot list: position = original index *)
+        let dummy = { Frame.rs_size = cz_of_int 0; rs_align = cz_of_int 1; rs_reghome = false; rs_arg = false; rs_use = cz_of_int 0 } in
+        let orig = Array.make n dummy in
+        List.iter (fun (ix, r, _) -> if ix >= 0 && ix < n then orig.(ix) <- r) recs;
+        let rec nat_of_int i = if i <= 0 then Frame.O else Frame.S (nat_of_int (i - 1)) in
+        let order = List.map (fun (ix, _, _) -> nat_of_int ix) recs in
+        let ook = Frame.order_ok (Array.to_list orig) order in
+        let processed = List.map (fun (_, r, _) -> Frame.to_sslot r) recs in
+        let impl_placed = List.map (fun (_, r, off) -> (Frame.to_sslot r, off)) recs in
+        let pok = Frame.placed_ok impl_placed (cz_of_string stack) in
+        let align = List.fold_left (fun a (_, r, _) -> Z.max a (z_of_cz r.Frame.rs_align)) Z.one recs in
+        let (mplaced, mstack) = Frame.alloc_frame processed (cz_of_z align) in
+        let st = Frame.alloc_all processed in
+        Printf.printf "T %d %d %s | %s %d %d\n" (if ook then 1 else 0) (if pok then 1 else 0)
+          (String.concat " " (List.map (fun (_, o) -> s o) mplaced)) (s mstack)
+          (List.length st.Frame.as_gaps) (if st.Frame.as_gap_used then 1 else 0)
+      | "E" :: _ ->
+        (* E arch sp0 ra d0..d3 p0..p3 s0..s3 hasfp csize localoff lsize cleanup | prolog | epilog   (instruction text of the IMPLEMENTATION)
+           -> E <code> <body sp>   verdict of FrameExec.exec_frame, i.e. of the proven machine *)
+        (match String.split_on_char '|' line with
+         | [hd; pro; epi] ->
+           let f = Array.of_list (List.filter (fun x -> x <> "") (String.split_on_char ' ' (String.trim hd))) in
+           let zf i = cz_of_string f.(i) in
+           let q i = { Frame.q0 = zf i; q1 = zf (i + 1); q2 = zf (i + 2); q3 = zf (i + 3) } in
+           (match parse_insts pro, parse_insts epi with
+            | Some p, Some e ->
+              let (code, spb) = Frame.exec_frame (arch_of (int_of_string f.(1))) p e (zf 2) (zf 3) (q 4) (q 8) (q 12) (f.(16) <> "0")
+                                  (zf 17) (zf 18) (zf 19) (zf 20) in
+              Printf.printf "E %s %s\n" (s code) (s spb)
+            | _ -> print_endline "E -1 0")
+         | _ -> print_endline "BAD")
       | [] -> ()
       | _ -> print_endline "BAD"
     done
